@@ -17,7 +17,9 @@ def _globals():
         _GLOBALS = {"Symbol": sympy.Symbol, "Integer": sympy.Integer, "Float": sympy.Float, "Function": sympy.Function,
                     "Pow": sympy.Pow, "exp": sympy.exp, "log": sympy.log, "sin": sympy.sin, "cos": sympy.cos, "tan": sympy.tan,
                     "sinh": sympy.sinh, "cosh": sympy.cosh, "tanh": sympy.tanh, "min": sympy.Min, "max": sympy.Max,
-                    "Heaviside": sympy.Heaviside, "e": sympy.E, "E": sympy.E, "t": sympy.Symbol("t"), "Rational": sympy.Rational}
+                    "Heaviside": sympy.Heaviside, "e": sympy.E, "E": sympy.E, "t": sympy.Symbol("t"), "Rational": sympy.Rational,
+                    # names SymPy's printer uses for what the input writes as a power / nested function (`2**(1/2)` comes back as `sqrt(2)`)
+                    "sqrt": sympy.sqrt, "Abs": sympy.Abs}
     return dict(_GLOBALS)
 
 
